@@ -207,8 +207,14 @@ def writeVals (st : St) (reuse : Dense) (vals : List Val) : Res (St × Dense) :=
   let st ← (vals.zip (rangeI vals.length)).foldlM (fun st (v, i) => st.set reuse.win i v) st
   pure (st, reuse)
 
+/-- `compactOperand(a)`: a tensor that owns its data but does not hold it in the default layout of its shape (the
+    clone of a non-contiguous view keeps the view's window and strides) is replaced by a compact copy -/
+def compactOperand (st : St) (a : Dense) : Res (St × Dense) :=
+  if !a.isMaterializable && !a.hasDefaultLayout then Dense.compacted st a else .ok (st, a)
+
 /-- `StdEng.OptimizedReduce` / `StdEng.Reduce` -/
 def optimizedReduce (st : St) (op : RedOp) (a : Dense) (axis : Int) : Res (St × Dense) := do
+  let (st, a) ← compactOperand st a
   let (st, reuse) ← prepReduce st a axis
   let data ← a.rawCells st
   let vals ← reduceVals op a reuse data axis
@@ -244,6 +250,11 @@ def engReduce (st : St) (op : RedOp) (a : Dense) (along : List Int) : RedOut :=
   | .error e => ⟨st, .error e, along⟩
   | .ok (st, m) =>
     let a2 := m.getD a
+    -- `reduce`: a tensor that owns its data but does not hold it in the default layout of its shape (the clone of a
+    -- non-contiguous view keeps the view's window and strides) is folded through a compact copy
+    match compactOperand st a2 with
+    | .error e => ⟨st, .error e, along⟩
+    | .ok (st, a2) =>
     if allAxesShortcut along a2.dims then
       -- monotonicMethod(typ, hdr): the whole storage window, left to right
       if !op.types.contains a2.dt then ⟨st, throwErr "Cannot perform op on this type", along⟩ else
@@ -443,16 +454,13 @@ def engArg (st : St) (isMax : Bool) (vs : Nat) (t : Dense) (axis : Int) : Res Ar
 
 /-! ### Known-defect regions -/
 
-/-- F44: the storage window, read left to right, is not the row-major listing of the logical elements -/
+/-- the storage window, read left to right, is not the row-major listing of the logical elements (metadata predicate
+    used by the flat arg-reduction theorems of `Props/C08`; finding F44, whose region it once delimited, is repaired:
+    `reduce` / `Reduce` / `OptimizedReduce` fold a compact copy of such a tensor) -/
 def Excl_rawNotLogical (t : Dense) : Bool :=
   let cs := allCoords t.shape
   if cs.length > 4096 then false else
   cs.map (fun c => dot c t.strides) != rangeI t.win.len
-
-/-- F44: a tensor that is not a view and has no pending transpose, yet is flagged non-contiguous
-    (a clone of a non-contiguous view keeps the view's window and flags): axis reductions refuse it,
-    the all-axes shortcut folds its whole window, gaps included. -/
-def Excl_iterableNonView (t : Dense) : Bool := !t.isMaterializable && t.requiresIterator
 
 /-! ### Steps of M -/
 
@@ -622,19 +630,6 @@ def stepS (psBefore psAfter : PState) (ss : SState) (_ : Nat) (toks : List Strin
 
 def excl (ps : PState) (toks : List String) : List String × Bool :=
   match toks with
-  | "red" :: opn :: _ :: a :: axes :: _ =>
-    match ps.obj a, parseIntList axes, opOf opn with
-    | some (_, t), some along, some _ =>
-      if allAxesShortcut along t.dims then
-        -- the shortcut folds the raw window of the (materialised) operand
-        ((if !t.isMaterializable && Excl_rawNotLogical t && (t.win.len : Int) != totalSize t.shape then ["F44"] else []), false)
-      else ((if Excl_iterableNonView t then ["F44"] else []), false)
-    | _, _, _ => ([], false)
-  | "reduce" :: a :: axis :: _ =>
-    match ps.obj a, axis.toInt? with
-    | some (_, t), some _ =>
-      ((if Excl_iterableNonView t then ["F44"] else []), false)
-    | _, _ => ([], false)
   | "arg" :: _ :: _ :: a :: axis :: _ =>
     match ps.obj a, parseAxis axis with
     | some (_, t), some ax =>
